@@ -52,7 +52,7 @@ func defaultConfig(tier string) *runConfig {
 	if tier == "thorough" {
 		c.queryTimeoutMs = 2000
 		c.fallbackTimeoutMs = 120000
-		c.harnessBudget = 6 * time.Minute
+		c.harnessBudget = 4 * time.Minute
 		c.maxPaths = 5_000_000
 	}
 	return c
